@@ -479,12 +479,12 @@ def run_C18(run):
     else:
         run.cov["ladders_translated"] = out.strip()
     shards = ["C18/P_C18_w16_%d.v" % k for k in range(8)] + ["C18/P_C18_sqrt_%d.v" % k for k in range(4)]
-    run.prove(gens, ["C18/A_C18_defs.v", "C05/P_C05_count.v", "C05/P_C05_msb.v"], ["C18/P_C18_ladders.v", "C18/P_C18_w8.v", "C18/P_C18_general.v", "C18/P_C18_pow2.v"] + shards, "C18/Properties_C18.v", timeout=1500)
+    run.prove(gens, ["C18/A_C18_defs.v", "C05/P_C05_count.v", "C05/P_C05_msb.v"], ["C18/P_C18_ladders.v", "C18/P_C18_w8.v", "C18/P_C18_general.v", "C18/P_C18_pow2.v", "C18/P_C18_nsb.v"] + shards, "C18/Properties_C18.v", timeout=1500)
     if rc == 0: ladder_validation(run)
     run.run_corr("impl_C18.cpp", [run.seed, run.tier], flags=["-fwrapv"])
     fails = oracle_sweep(run, "C18", [("all", ["-fwrapv", "-pthread"])], run.tier, opt="-O1")
     run.fails = run.triage(fails)
-    run.assumptions = ["32/64-bit element types: isPowerOfTwo, ceil/floor/roundPowerOfTwo, lowestBitValue and nlz are theorems for every positive (lowestBitValue: every non-zero) value, through C05's bitCount/smear-ladder theorems; findNSB, the rotations, highestBitValue / powerOfTwoAbove/Below/Nearest (loop based) and sqrt beyond 65535 are NOT theorems on those widths; they are covered by the correspondence check and the loop-based oracle on boundary, single-bit, power+-1 and random values (testing)",
+    run.assumptions = ["32/64-bit element types: the rotations (refuted: known findings) and sqrt beyond 65535 are NOT theorems on those widths; isPowerOfTwo, ceil/floor/roundPowerOfTwo, highestBitValue, powerOfTwoAbove/Below/Nearest, lowestBitValue, nlz and findNSB (every count) are; they are covered by the correspondence check and the loop-based oracle on boundary, single-bit, power+-1 and random values (testing)",
                        "floating ceil/floor/roundMultiple: modelled only on a dyadic grid (Source = s/2^e, Multiple = m/2^e, |s| <= 10^6, m <= 4000, e <= 5) where every operation is exact; no theorem about rounding off the grid",
                        "the vector overloads are tied to the scalar model by the correspondence driver (one lane carries the operands) and the oracle's scalar-vs-vector comparison",
                        "signed 32/64-bit arithmetic is modelled as wrapping and the drivers are built with -fwrapv; overflowing cases are formally undefined (property C20)",
@@ -493,7 +493,7 @@ def run_C18(run):
     return run.finish(TRUST_H + ["tools/trace/gen_C18.py: translator of the interleave/deinterleave ladders (statement grammar; validated on every run against the compiled overloads by vm_compute)",
                                  "oracle_C18.cpp: loop-based one-bit-at-a-time references (violation search; sole check of the 32/64-bit items listed as not theorems)"],
                       "theorems: every argument value for the translated interleave/deinterleave ladders (2^16..2^64 tuples); every width and value for ceil/floor/next/prevMultiple, isMultiple, mask, fill structure, gtx mod/pow; exhaustive over all 8- and 16-bit values (every count, shift, field) for the power-of-two family, findNSB, rotations; sqrt for x < 65536; factorial to 12!/20!",
-                      "gen_C18.py; coqc (Gen_C18_ladders, A_C18_defs, P_C18_ladders, P_C18_w8, P_C18_w16_0..7, P_C18_sqrt_0..3, P_C18_general, P_C05_count, P_C05_msb, P_C18_pow2, Properties_C18); tools/corr/impl_C18 | coq/extract/corr_model")
+                      "gen_C18.py; coqc (Gen_C18_ladders, A_C18_defs, P_C18_ladders, P_C18_w8, P_C18_w16_0..7, P_C18_sqrt_0..3, P_C18_general, P_C05_count, P_C05_msb, P_C18_pow2, P_C18_nsb, Properties_C18); tools/corr/impl_C18 | coq/extract/corr_model")
 
 
 # ------------------------------------------------------------------------------------------ C14
